@@ -224,7 +224,10 @@ impl BinaryDeserializer for DeduplicatedString {
     fn deserialize(context: &mut DeserializationContext<'_>) -> Result<Self> {
         let count_or_id = context.read_var_i32()?;
         if count_or_id < 0 {
-            let id = StringId(-count_or_id);
+            let id = match count_or_id.checked_neg() {
+                Some(id) => StringId(id),
+                None => return Err(Error::InvalidStringId(StringId(count_or_id))),
+            };
             match context.state().get_string_by_id(id) {
                 Some(s) => Ok(DeduplicatedString(s.to_string())),
                 None => Err(Error::InvalidStringId(id)),
